@@ -50,8 +50,9 @@ CONSTANTS
     SearchValidatedOnly,  \* search(): validated != 0                              (as implemented: TRUE)
     SearchUnexpiredOnly,  \* search(): skips expired rows                          (as implemented: TRUE)
     ValidateMarksPassing, \* validate(): flags exactly the rows that passed         (as implemented: TRUE)
-    RefetchOnSeedChange,  \* DEVIATION (as implemented FALSE): after a wipe the response fetched with the OLD
-                          \*   timestamp is discarded and the client starts over from 0
+    RefetchOnSeedChange,  \* (as implemented TRUE since the repair of F-C16-seedwipe; FALSE = the repaired deviation):
+                          \*   after a wipe the response fetched with the OLD timestamp (> 0) is discarded and the
+                          \*   client starts over from 0 at the next poll (client.go: timestamp re-read after the wipe)
     SupersedeMustOutlive, \* DEVIATION (as implemented FALSE): a presentation that expires before the one it
                           \*   replaces is refused
     Hist
@@ -180,7 +181,8 @@ ClientApply(out) ==
            rows0 == IF wiped THEN {} ELSE crows
            cts0  == IF wiped THEN 0 ELSE cts
            seed0 == IF wiped THEN poll.rseed ELSE cseed
-           resp  == IF wiped /\ RefetchOnSeedChange THEN {} ELSE poll.rows
+           \* a response asked for with timestamp 0 is complete for whatever list the server holds: it is applied
+           resp  == IF wiped /\ RefetchOnSeedChange /\ poll.after # 0 THEN {} ELSE poll.rows
            new   == {r \in resp : ~\E c \in rows0 : c.s = r.s /\ c.id = r.id}    \* exists() -> continue
            \* every add() prunes first, deletes the subject's previous rows, inserts
            kept  == {c \in rows0 : ~Expired(c.exp) /\ (DeletePrevious => c.s \notin {r.s : r \in new})}
